@@ -3,14 +3,42 @@ import copy, json, os, re
 import lib, abisig, callgen, cppgen, c01
 
 
-def build_and_run_cpp(rep, tag, defs, entries, wd, stds=("c++17", "c++20")):
+NS_TYPES = {"Opq": ("dv::inner", None), "Host": ("dv", "RnHost"), "En": ("dv::inner", "RnEn"), "Inner": ("dv::inner::deep", None),
+            "Wide": (None, "RnWide"), "Mix": ("other", None), "Nest": ("dv", None), "WOpt": ("dv::inner", "Rn{0}"), "Brw": (None, None),
+            "Os": ("other::x", None)}
+
+
+def ns_attr(n):
+    """namespaces (1-3 levels, shared and disjoint prefixes) and renames for the C++ backend only"""
+    ns, rn = NS_TYPES.get(n, (None, None))
+    out = ""
+    if ns:
+        out += '    #[diplomat::attr(cpp, namespace = "%s")]\n' % ns
+    if rn:
+        out += '    #[diplomat::attr(cpp, rename = "%s")]\n' % rn
+    return out
+
+
+def ns_aliases():
+    """C++ aliases that let the driver keep using the catalogue's plain type names"""
+    out = []
+    for n, (ns, rn) in NS_TYPES.items():
+        real = (rn or n).replace("{0}", n)
+        q = ((ns + "::") if ns else "") + real
+        if q != n:
+            out.append("using %s = %s;" % (n, q))
+    return "\n".join(out) + "\n"
+
+
+def build_and_run_cpp(rep, tag, defs, entries, wd, stds=("c++17", "c++20"), namespaced=False):
     g = callgen.Gen(defs, 0)
     bodies = {}
     for e in entries:
         bodies[e["n"]] = g.rust_body(e["n"], e["sig"], e["args"], e["retv"], e["write"]["chunks"] if e["write"] else None,
                                      ret_ty=abisig.rust_ty(e["sig"]["ret"], "'a" if abisig.mentions_borrow(e["sig"]["ret"]) else None))
     src, syms = abisig.module(defs, [(e["n"], e["sig"]) for e in entries], bodies=bodies,
-                              host_data=(callgen.HOST_TEXT, callgen.HOST_BYTES, callgen.HOST_WORDS, callgen.HOST_WIDE))
+                              host_data=(callgen.HOST_TEXT, callgen.HOST_BYTES, callgen.HOST_WORDS, callgen.HOST_WIDE),
+                              type_attr=ns_attr if namespaced else None)
     lib_rs = "#![allow(unused, non_snake_case, clippy::all)]\n" + callgen.RUST_SUPPORT + src
     b = lib.build_bridge("c02_" + tag, lib_rs)
     if not b["ok"]:
@@ -23,8 +51,9 @@ def build_and_run_cpp(rep, tag, defs, entries, wd, stds=("c++17", "c++20")):
         return {}
     cg = cppgen.CppGen(defs)
     calls = [cg.call(e["n"], e["sig"], e["args"], e["write"], invalid_utf8=e.get("invalid_utf8", False)) for e in entries]
-    headers = sorted(f for f in os.listdir(out) if f.endswith(".hpp") and not f.endswith(".d.hpp"))
-    drv = (cppgen.CPP_SUPPORT + "".join('#include "%s"\n' % h for h in headers) + cppgen.WTOK +
+    headers = sorted(os.path.relpath(os.path.join(r, f), out) for r, _, fs in os.walk(out) for f in fs
+                     if f.endswith(".hpp") and not f.endswith(".d.hpp"))
+    drv = (cppgen.CPP_SUPPORT + "".join('#include "%s"\n' % h for h in headers) + (ns_aliases() if namespaced else "") + cppgen.WTOK +
            "int main() {\n    std::unique_ptr<Opq> obj = Opq::mk(1);\n    std::unique_ptr<Host> host = Host::mk(7);\n    "
            + "\n    ".join(calls) + "\n    return 0;\n}\n")
     dp = os.path.join(wd, "driver_%s.cpp" % tag)
@@ -157,7 +186,7 @@ def usable(sig):
 
 def run(rep, tier):
     wd = rep.wd
-    rep.rule = ("cases = the Abi.tla catalogue x value vectors (as C01) driven through the generated C++ classes: std::optional, "
+    rep.rule = ("cases = the Abi.tla catalogue (incl. 35 callback signatures) x value vectors (as C01) driven through the generated C++ classes: std::optional, "
                 "string_view/u16string_view, diplomat::span, structs, enum wrapper, references, unique_ptr, diplomat::result, std::string; "
                 "compiled with g++ -std=c++17 (bundled span) and -std=c++20 (std::span) under ASan/UBSan; plus every direct &str "
                 "parameter with invalid UTF-8, which must be refused before reaching Rust; non-trivial = distinct (standard, signature, "
@@ -185,12 +214,12 @@ def run(rep, tier):
     entries += extra
     B = 450
     total = 0
-    for i in range(0, len(entries), B):
-        chunk = entries[i:i + B]
-        tag = "b%d" % (i // B)
-        res = build_and_run_cpp(rep, tag, defs, chunk, wd)
+
+    def run_batch(chunk, tag, namespaced=False):
+        n = 0
+        res = build_and_run_cpp(rep, tag, defs, chunk, wd, namespaced=namespaced)
         for std, events in res.items():
-            total += check_events_cpp(rep, g, chunk, events, std)
+            n += check_events_cpp(rep, g, chunk, events, std)
             tr = os.path.join(wd, "trace_%s_%s.ndjson" % (tag, std.replace("+", "p")))
             lib.write_ndjson(tr, events)
             ok, r = lib.validate_trace("abi", "Trace_CallProtocol", "call_trace.cfg", tr, heap="4g")
@@ -199,6 +228,18 @@ def run(rep, tier):
                 rej = (r.printed.get("REJECTED") or [{}])[0]
                 rep.violation({"leg": "trace", "std": std, "what": "trace is not a behaviour of CallProtocol", "event": (rej.get("event") or {}).get("ev")},
                               {"rejected": rej, "trace": tr})
+        return n
+
+    for i in range(0, len(entries), B):
+        total += run_batch(entries[i:i + B], "b%d" % (i // B))
+    # the same calls with every type moved into (nested, shared-prefix and disjoint) C++ namespaces and some renamed:
+    # the driver reaches them through aliases, so only the generated code changes
+    step = max(1, len(entries) // (150 if tier == "quick" else 450))
+    ns_chunk = copy.deepcopy(entries[::step])
+    for k, e in enumerate(ns_chunk):
+        e["n"] = k
+    total += run_batch(ns_chunk, "ns", namespaced=True)
+    rep.extra["namespaced_calls"] = len(ns_chunk)
     nft = feature_tests_leg(rep, wd)
     rep.extra["feature_tests_programs_run"] = nft
     total += nft
